@@ -91,7 +91,11 @@ def check_program(spec, col, depths, meta):
                 return
             try:
                 v = U.deep_value(spec, mat, d)
+                U.plain_wire(spec, v, mat)
             except U._Stop:
+                continue
+            except RecursionError:
+                col.label(f"harness:own-recursion-limit:{d}")
                 continue
             col.ev()
             col.label(f"depth:{d}")
@@ -161,10 +165,10 @@ def run_topology(t, col, depths, flavours=None, future=False, mods=None):
 def plan(tier, seed):
     shards = [{"kind": "n1"}, {"kind": "aliases"}, {"kind": "aliasedges", "seed": seed}]
     if tier == "quick":
-        for i in range(10):
-            shards.append({"kind": "n2", "mod": 10 * 8, "rem": (i * 8 + seed) % 80})
-        for i in range(4):
-            shards.append({"kind": "n3", "seed": seed * 1000 + i, "n": 25})
+        for i in range(8):
+            shards.append({"kind": "n2", "mod": 8 * 12, "rem": (i * 12 + seed) % 96})
+        for i in range(3):
+            shards.append({"kind": "n3", "seed": seed * 1000 + i, "n": 20})
     else:
         for i in range(59):
             shards.append({"kind": "n2", "mod": 59, "rem": i})
@@ -221,14 +225,18 @@ def _run(shard, col):
                 classes.append(tuple((draw(st.integers(0, n - 1)), draw(st.sampled_from(tp.CYCLE_KINDS))) for _ in range(k)))
             return tuple(classes), [draw(st.sampled_from(tp.FLAVOURS)) for _ in range(n)], draw(st.booleans()), [draw(st.integers(0, 1)) for _ in range(n)]
 
-        def one(c):
-            t, fl, fut, mods = c
+        # generate first, check afterwards: Hypothesis manages the recursion limit while a test function runs,
+        # and depth-150 values need a deep stack
+        cases = []
+        core.drive(t3(), cases.append, n=shard["n"], seed=shard["seed"], col=col)
+        sys.setrecursionlimit(30000)
+        for t, fl, fut, mods in cases:
             if len(tp.reachable(t, 0)) != 3 or not tp.has_cycle(t, 0):
-                return
+                continue
+            if col.out_of_time():
+                break
             col.label("topology:3-class")
             run_topology(t, col, depths, flavours=fl, future=fut, mods=mods)
-
-        core.drive(t3(), one, n=shard["n"], seed=shard["seed"], col=col)
         col.exhaustive_done = True
 
 
